@@ -351,6 +351,9 @@ func init() {
 			if tier == "thorough" {
 				cases, nops = 600, 300
 			}
+			// one very long history: more distinct rules than any plausible bound on the rule cache are materialised,
+			// then names holding a lookup window twice are asked (decided by the fresh-engine oracle alone)
+			emit("big\t" + fmt.Sprint(17000+g.Intn(500)))
 			for i := 0; i < cases; i++ {
 				ls, lines := genHistStorage(g, 30)
 				var ops []Req
@@ -363,6 +366,36 @@ func init() {
 		},
 		Run: func(line string, st *Stats) (string, string, bool) {
 			f := strings.Split(line, "\t")
+			if f[0] == "big" {
+				var n int
+				fmt.Sscan(f[1], &n)
+				var sb strings.Builder
+				for i := 0; i < n; i++ {
+					fmt.Fprintf(&sb, "||h%d.big.example^\n", i)
+				}
+				ls := []listSpec{{1, false, sb.String()}}
+				h := newHistEngines(ls, false)
+				defer h.cleanup()
+				for i := 0; i < n; i++ {
+					h.runOp(Req{Kind: Pick(&Gen{R: newRand(int64(i))}, []string{"dns", "host"}), Hostname: fmt.Sprintf("h%d.big.example", i)})
+				}
+				fresh := newHistEngines(ls, false)
+				defer fresh.cleanup()
+				flags := ""
+				for i := n - 40; i < n; i++ {
+					name := fmt.Sprintf("h%d.big.example", i)
+					for _, rq := range []Req{{Kind: "dns", Hostname: name + "." + name}, {Kind: "url", URL: "http://" + name + "/" + name, Type: 4}, {Kind: "dns", Hostname: name}} {
+						o1, r1, _ := h.runOp(rq)
+						o2, r2, _ := fresh.runOp(rq)
+						if (o1 != o2 || r1.count() != r2.count()) && flags == "" {
+							flags = fmt.Sprintf("!HISTORY-DEPENDENT-AFTER-%d-QUERIES:%s reports %d rules, fresh engine %d", n, rq.Hostname+rq.URL, r1.count(), r2.count())
+						}
+					}
+				}
+				st.Add("ops", n+120)
+				st.Inc("long_histories")
+				return "ok" + flags, "echo\tok", true
+			}
 			ls := decodeStorage(f[0])
 			ops := decodeReqs(f[1])
 			h := newHistEngines(ls, false)
@@ -382,9 +415,9 @@ func init() {
 				}
 				// the property's own oracle: the same query on fresh engines
 				fresh := newHistEngines(ls, false)
-				fobs, _, _ := fresh.runOp(rq)
+				fobs, fr, _ := fresh.runOp(rq)
 				fresh.cleanup()
-				if fobs != obs && flags == "" {
+				if (fobs != obs || fr.count() != r.count()) && flags == "" {
 					flags = fmt.Sprintf("!HISTORY-DEPENDENT:op=%d", k)
 				}
 				// derived results of older results, interleaved
